@@ -5,6 +5,7 @@ import (
 
 	"github.com/trustbloc/sidetree-core-go/pkg/api/operation"
 	"github.com/trustbloc/sidetree-core-go/pkg/api/protocol"
+	"github.com/trustbloc/sidetree-core-go/pkg/versions/1_0/operationparser"
 
 	"verifharness/kit/refmodel"
 	"verifharness/kit/wire"
@@ -32,6 +33,26 @@ type Case struct {
 	// Versions, when present, are the protocol versions in force (first genesis must be 0); every operation is
 	// applied under the version its protocol-version stamp (CaseOp.PV) selects. Empty = one version.
 	Versions []VersionSpec `json:"versions,omitempty"`
+	// ExpiredClock: the node's parsers are configured with a server-clock validator for which every signed anchoring
+	// window has already expired. Intake would refuse such requests; the resolution of anchored operations must not
+	// depend on the node's clock at all.
+	ExpiredClock bool `json:"expiredClock,omitempty"`
+}
+
+type expiredClock struct{}
+
+func (expiredClock) Validate(from, until int64) error {
+	if from == 0 && until == 0 {
+		return nil
+	}
+	return operationparser.ErrOperationExpired
+}
+
+func (c *Case) deps() wire.Deps {
+	if c.ExpiredClock {
+		return wire.Deps{ParserOpts: []operationparser.Option{operationparser.WithAnchorTimeValidator(expiredClock{})}}
+	}
+	return wire.Deps{}
 }
 
 // VersionSpec is one protocol version of a multi-version case: the versions differ in the maximum operation
@@ -127,14 +148,14 @@ func (c *Case) Protocol() protocol.Protocol {
 // Client returns a protocol client of the real components for the case.
 func (c *Case) Client() *wire.Client {
 	if len(c.Versions) == 0 {
-		return wire.NewClient(wire.Build(c.Protocol(), wire.Deps{}))
+		return wire.NewClient(wire.Build(c.Protocol(), c.deps()))
 	}
 	var vs []protocol.Version
 	for _, v := range c.Versions {
 		p := c.Protocol()
 		p.GenesisTime = v.Genesis
 		p.MaxOperationTimeDelta = v.MaxTimeDelta
-		vs = append(vs, wire.Build(p, wire.Deps{}))
+		vs = append(vs, wire.Build(p, c.deps()))
 	}
 	return wire.NewClient(vs...)
 }
